@@ -293,6 +293,11 @@ func c13Mutations(r *vf.Rand, pub, msg, sig []byte, mode string) []c13Case {
 	add("S+L", pub, msg, c13SetS(sig, new(big.Int).Add(S, grpEdL)))
 	add("S+2L", pub, msg, c13SetS(sig, new(big.Int).Add(S, new(big.Int).Lsh(grpEdL, 1))))
 	add("S=0", pub, msg, c13SetS(sig, big.NewInt(0)))
+	// every S + j·L that fits the 57 octets (the group equation still holds for all of them: only the range check rejects),
+	// and the boundary / top-word classes of the range check, with the honest R and key
+	for _, sc := range c13ScalarBoundaries(r, S) {
+		add("S-range:"+sc.tag, pub, msg, c13SetS(sig, sc.v))
+	}
 	// wrong lengths
 	add("len:sig-113", pub, msg, sig[:113])
 	add("len:sig-115", pub, msg, append(append([]byte{}, sig...), 0))
@@ -346,7 +351,63 @@ func c13NonCanonical(r *vf.Rand, msg []byte, mode string) []c13Case {
 			}
 		}
 	}
-	// mixed-order public key (prime-order point + 4-torsion) with an honest-looking signature
+	// CROSS product: every public key of order <= 4 (canonical encoding) x R in {the four points of order <= 4 — this
+	// contains -[k]A whenever that is consistent with the hash} x S in {0, 1, L-1} and S >= L in all its classes.
+	// Expectation from the spec: every S >= L is rejected whatever R and A are; below L the reduced-k equation decides.
+	for _, A := range c13SmallOrder {
+		pk := grpEdEncode(A)
+		for _, T := range c13SmallOrder {
+			R := grpEdEncode(T)
+			for _, sc := range c13ScalarBoundaries(r, big.NewInt(0)) {
+				add("small-order-cross:S="+sc.tag, pk, append(append([]byte{}, R...), c16pLE(sc.v, 57)...))
+			}
+			for _, v := range []int64{0, 1} {
+				add(fmt.Sprintf("small-order-cross:S=%d", v), pk, append(append([]byte{}, R...), c16pLE(big.NewInt(v), 57)...))
+			}
+			add("small-order-cross:S=L-1", pk, append(append([]byte{}, R...), c16pLE(new(big.Int).Sub(grpEdL, big.NewInt(1)), 57)...))
+		}
+	}
+	return out
+}
+
+type c13ScalarClass struct {
+	tag string
+	v   *big.Int
+}
+
+// c13ScalarBoundaries: scalars at and above the group order for the range check of S, relative to a valid S0 < L:
+// S0 + j*L for every j with S0 + j*L < 2^456, j*L and j*L +- 1 for j = 1..4, 2^446 +- small, 2^447, 2^448 - 1, 2^448, 2^455,
+// the 57th octet non-zero (0x01, 0x80), and the top 64-bit word of the 56 octets set to 0x7fff.., 0x8000.., 0xbfff.., 0xc000.., 0xffff..
+func c13ScalarBoundaries(r *vf.Rand, s0 *big.Int) []c13ScalarClass {
+	var out []c13ScalarClass
+	add := func(tag string, v *big.Int) {
+		if v.Sign() >= 0 && v.BitLen() <= 456 {
+			out = append(out, c13ScalarClass{tag, v})
+		}
+	}
+	one := big.NewInt(1)
+	for j := int64(1); j <= 5; j++ {
+		jl := new(big.Int).Mul(big.NewInt(j), grpEdL)
+		add(fmt.Sprintf("S0+%dL", j), new(big.Int).Add(s0, jl))
+		add(fmt.Sprintf("%dL", j), jl)
+		add(fmt.Sprintf("%dL+1", j), new(big.Int).Add(jl, one))
+		if j > 1 {
+			add(fmt.Sprintf("%dL-1", j), new(big.Int).Sub(jl, one))
+		}
+	}
+	for _, e := range []uint{446, 447, 448} {
+		add(fmt.Sprintf("2^%d-1", e), new(big.Int).Sub(grpPow2(e), one))
+		add(fmt.Sprintf("2^%d", e), grpPow2(e))
+		add(fmt.Sprintf("2^%d+%d", e, 1+r.Intn(3)), new(big.Int).Add(grpPow2(e), big.NewInt(int64(1+r.Intn(3)))))
+	}
+	add("2^455", grpPow2(455))                          // last octet 0x80
+	add("S0+2^448", new(big.Int).Add(s0, grpPow2(448))) // 57th octet 0x01
+	add("S0+2^455", new(big.Int).Add(s0, grpPow2(455))) // 57th octet 0x80 (the bit Verify masks)
+	low := new(big.Int).Mod(new(big.Int).Add(s0, new(big.Int).SetBytes(r.Bytes(48))), grpPow2(384))
+	for _, top := range []uint64{0x3fffffffffffffff, 0x4000000000000000, 0x7fffffffffffffff, 0x8000000000000000, 0xbfffffffffffffff, 0xc000000000000000, 0xffffffffffffffff} {
+		v := new(big.Int).Lsh(new(big.Int).SetUint64(top), 384)
+		add(fmt.Sprintf("top-word=%x", top), v.Add(v, low))
+	}
 	return out
 }
 
